@@ -371,6 +371,9 @@ def generate(rng, index, cfg):
         "long_p": rng.choice([0.0, 0.0, 0.0, 0.5]),     # outputs longer than the comparators' length limits, common prefix
         "edit_kinds": rng.choice([None, ["src"] * 6 + ["out", "md"], ["dupedit", "dupedit", "out", "src"], ["dupedit", "dupedit", "src", "out"], ["out", "out", "ec", "md", "src"], ["src", "src", "out"], ["ins", "del", "move", "dup", "out"]]),
     }
+    # texts with a U+0000 line in many cells (text-merge helpers refuse such input: their failure paths get exercised)
+    swarm["nul_p"] = rng.choice([0.0, 0.0, 0.0, 0.0, 0.6])
+    nbgen.NUL_P[0] = swarm["nul_p"]
     nbgen.LONG_P[0] = swarm["long_p"]
     if swarm["long_p"]:
         # long outputs are only interesting if they survive into the edited copies: keep payloads, change counts,
@@ -381,6 +384,7 @@ def generate(rng, index, cfg):
         pool = _pool(rng, swarm)
     finally:
         nbgen.LONG_P[0] = 0.0
+        nbgen.NUL_P[0] = 0.0
     swarm["web"] = rng.random() < 0.15
     if swarm["web"]:
         swarm["w_merge"] = max(swarm["w_merge"], 0.5)
